@@ -24,7 +24,7 @@ RULE = ("Zone ids sampled from all ids known to both tz libraries plus a fixed a
         "vt.to_tz(tzp, lookup_tzid=False); (c) from_tzinfo(converted zone, id, first, last) serialises identically to vt. "
         "Non-trivial: the zone has a transition inside the window; distinct by hash.")
 ASSUMPTIONS = ["ground truth for a provider is that provider's own tz library (zoneinfo / pytz) on the installed tzdata"]
-REQUIRED_CLASSES = ["has-transition", "no-transition", "provider:zoneinfo", "provider:pytz", "instant:at-transition"]
+REQUIRED_CLASSES = ["has-transition", "no-transition", "provider:zoneinfo", "provider:pytz", "instant:at-transition", "history:same-id-converted-for-another-window"]
 
 UTC = timezone.utc
 AWKWARD = ["Africa/Cairo", "Africa/Casablanca", "Pacific/Apia", "Europe/Dublin", "Australia/Lord_Howe", "America/Caracas", "Asia/Tomsk", "Asia/Kathmandu",
@@ -115,6 +115,13 @@ def judge(case):
             Calendar.from_ical("\r\n".join(["BEGIN:VCALENDAR", "BEGIN:VTIMEZONE", f"TZID:/{zone}", "BEGIN:STANDARD", "DTSTART:19700101T000000",
                                                "TZOFFSETFROM:+0545", "TZOFFSETTO:+0545", "TZNAME:BOGUS", "END:STANDARD", "END:VTIMEZONE", "BEGIN:VEVENT",
                                                f"DTSTART;TZID=/{zone}:20200101T120000", "END:VEVENT", "END:VCALENDAR"]) + "\r\n")
+        if case.get("pre_window"):
+            # history: the same zone id was generated for another window and converted before, on the same provider object
+            try:
+                w0, w1 = date(*case["pre_window"][0]), date(*case["pre_window"][1])
+                Timezone.from_tzid(zone, tzp, w0, w1).to_tz(tzp, lookup_tzid=False)
+            except Exception:  # noqa: BLE001 - only what follows is judged
+                pass
         if lib != provider:
             vt = Timezone.from_tzinfo(tz_src, zone, first, last)
         elif case.get("own_tzp"):
@@ -258,6 +265,8 @@ def info(case):
     classes = ["provider:" + case["provider"], "has-transition" if trs else "no-transition"]
     if trs:
         classes.append("instant:at-transition")
+    if case.get("pre_window"):
+        classes.append("history:same-id-converted-for-another-window")
     return {"nontrivial": bool(trs), "classes": classes}
 
 
@@ -281,7 +290,8 @@ def cases(draw, grid_days=5):
         last = [y0 + 1, first[1], first[2]]
     return {"provider": draw(st.sampled_from(["zoneinfo", "pytz"])), "zone": zone, "first": first, "last": last, "grid_days": grid_days,
             "src_lib": draw(st.sampled_from(["provider", "provider", "other"])), "pre_parse": draw(st.sampled_from([False, False, True])),
-            "own_tzp": draw(st.booleans())}
+            "own_tzp": draw(st.booleans()),
+            "pre_window": draw(st.sampled_from([None, None, [[1990, 1, 1], [1992, 1, 1]], [[2015, 6, 1], [2016, 6, 1]], [[y1, 1, 1], [min(2038, y1 + 2), 12, 31]]]))}
 
 
 def streams(tier):
